@@ -118,6 +118,21 @@ theorem key_spec_stylesheet (idx : ν → Nat) (isDoc : ν → Bool) (s : Sheet 
       | str v => rw [hu] at hv; simpa using hv
       | nodeset vs => rw [hu] at hv; simpa using hv
 
+omit [DecidableEq κ] [DecidableEq δ] in
+/-- **The binary insertion-point search is right** (`findInsertionPointBinarySearch`, transcribed loop and
+post-loop code): on every non-empty list in document order it reports a duplicate exactly when the node is in the
+list and otherwise the unique position that keeps the list ordered — the same list the linear search
+(`findInsertionPointLinearSearch`) produces.  Lists of any length. -/
+theorem insertion_point_binary_eq_linear (idx : ν → Nat) (n : ν) (l : List ν)
+    (hp : l.Pairwise (fun a b => idx a < idx b)) (hne : l ≠ []) :
+    (let r := findInsertionPointBinarySearch (l.map idx) (idx n)
+     if r.1 then insertAtPos l r.2 n else l) = insertInOrder idx n l :=
+  binarySearch_eq_linear idx n l hp hne
+
+example : findInsertionPointBinarySearch [2, 5, 9, 12] 7 = (true, 2) ∧ findInsertionPointBinarySearch [2, 5, 9, 12] 9 = (false, 4)
+    ∧ findInsertionPointBinarySearch [2, 5, 9, 12] 1 = (true, 0) ∧ findInsertionPointBinarySearch [2, 5, 9, 12] 13 = (true, 4) := by
+  decide
+
 /-- **History independence** (unconditional — no assumption on indices, on the declarations or on the guard): for
 every sequence of key() calls over any documents, starting from the empty cache of a fresh transformation, each
 answer is the answer the *same call alone* gets on fresh tables.  The per-document cache never changes an answer. -/
